@@ -64,9 +64,7 @@ def type_ok(t, v):
     if t == LSTR:
         return isinstance(v, list) and all(isinstance(x, str) for x in v)
     if t == INT:
-        if isinstance(v, bool):
-            return None
-        return isinstance(v, int)
+        return isinstance(v, int) and not isinstance(v, bool)    # JSON true / false are not integers
     if t == BOOL:
         return isinstance(v, bool)
     return None
